@@ -49,7 +49,7 @@ def main():
             viol = [l for l in out.splitlines() if l.startswith(("VIOLATION", "KNOWN"))]
             err = p.stderr.decode(errors="replace")
             det = [l for l in err.splitlines() if "violation detail" in l or "HARNESS" in l]
-            print("%s %s rc=%d %.0fs %s" % (os.path.basename(os.path.dirname(os.path.dirname(patch))) + "/" + os.path.basename(patch),
+            print("%s %s rc=%d %.0fs %s" % (os.path.basename(os.path.dirname(os.path.abspath(patch))),
                                             pid, p.returncode, time.time() - t, "CAUGHT" if p.returncode == 1 else "missed" if p.returncode == 0 else "ERROR"))
             for l in viol[:3]:
                 print("   ", l)
